@@ -11,6 +11,7 @@ import ConfModel.Lemmas.DataTracerW
 import ConfModel.Lemmas.EnvelopeEncode
 import ConfModel.Lemmas.CallerBuf
 import ConfModel.Lemmas.H2Body
+import ConfModel.Lemmas.H2DataFrame
 import ConfModel.Model.H2Conn
 import ConfModel.Generated.C14Facts
 namespace ConfModel.Props.C14
@@ -388,6 +389,83 @@ example (st : ConfModel.H2.Stream) (e : ConfModel.H2.Err) :
     ((ConfModel.H2.setMax ⟨false, [(3, st)], 0⟩ 3 e).1.streams = [(3, st)]) ∧
     ((ConfModel.H2.setMax ⟨false, [(3, st)], 0⟩ 2 e).1.streams = []) := by
   simp [ConfModel.H2.setMax]
+
+/-! ### DATA frames: the Pad Length octet and the padding are not body -/
+
+/-- **What reaches the envelope state machine is the frame's data, not its payload**: for every
+data, every padding (any content, any length a Pad Length octet can express, the empty padding
+included) `parseDataFrame` applied to what `WriteDataPadded` puts on the wire gives back the data. -/
+theorem data_frame_padding_stripped (d : PData) (h : d.wellFormed = true) :
+    d.wire.data = some d.data :=
+  data_wire d h
+
+example : (PData.wire ⟨[0, 0, 0, 0, 1, 65], some [9, 9, 9]⟩) = ⟨true, [3, 0, 0, 0, 0, 1, 65, 9, 9, 9]⟩ ∧
+    (PData.wire ⟨[0, 0, 0, 0, 1, 65], some [9, 9, 9]⟩).data = some [0, 0, 0, 0, 1, 65] ∧
+    (PData.wire ⟨[], some []⟩) = ⟨true, [0]⟩ ∧ (PData.wire ⟨[], some []⟩).data = some [] := by decide
+
+/-- Conversely every DATA frame the framer accepts is a well-formed padded form of the data it yields
+(the model of the receiver has no other accepted inputs); the two rejected shapes are witnessed below. -/
+theorem data_frame_accepted (f : DFrame) (x : Bytes) (h : f.data = some x) :
+    ∃ d : PData, d.wellFormed = true ∧ d.wire = f ∧ d.data = x :=
+  data_some f x h
+
+example : (DFrame.mk true [2, 7, 7, 0, 0]).data = some [7, 7] ∧ (DFrame.mk true []).data = none ∧
+    (DFrame.mk true [3, 7, 7]).data = none ∧ (DFrame.mk false [3, 7, 7]).data = some [3, 7, 7] := by decide
+
+/-- **The body events of a stream do not depend on the padding of its DATA frames.**  For every life
+of a stream (DATA frames of both directions in any interleaving and cut anywhere relative to the
+envelopes, any way of ending) and EVERY padding assignment: all frames parse, and what the builder
+receives is what it receives for the bare data — hence the same as when the peer sends the very same
+frames without any padding. -/
+theorem h2_body_events_padding_independent (cq cp : Cfg) (ops : List PadOp)
+    (h : ∀ o ∈ ops, o.wellFormed = true) :
+    wrunH cq cp (ops.map PadOp.wire) = some (hrun cq cp hinit (ops.map PadOp.plain)).2 ∧
+    wrunH cq cp (ops.map PadOp.wire) = wrunH cq cp ((ops.map PadOp.unpadded).map PadOp.wire) := by
+  have h1 : wrunH cq cp (ops.map PadOp.wire) = some (hrun cq cp hinit (ops.map PadOp.plain)).2 := by
+    simp [wrunH, decodeOps_wire ops h]
+  refine ⟨h1, ?_⟩
+  rw [h1]
+  have h2 := decodeOps_wire (ops.map PadOp.unpadded) (by
+    intro o ho
+    obtain ⟨o', _, rfl⟩ := List.mem_map.1 ho
+    exact unpadded_wellFormed o')
+  have h3 : (ops.map PadOp.unpadded).map PadOp.plain = ops.map PadOp.plain := by
+    simp [List.map_map, Function.comp_def, unpadded_plain]
+  unfold wrunH
+  rw [h2, h3]
+  rfl
+
+/-- non-vacuity: a message whose prefix is cut over two padded frames (Pad Length 0 and 2, padding
+that itself looks like an envelope prefix), END_STREAM by a padded EMPTY frame -/
+example :
+    wrunH ⟨true, true, some⟩ ⟨false, true, some⟩
+      ([.reqData ⟨[0, 0, 0], some []⟩, .reqData ⟨[0, 1, 65], some [2, 0]⟩, .reqData ⟨[], some [0, 0, 0, 0, 9]⟩, .reqEnd,
+        .respEnd].map PadOp.wire) =
+      some [.q (Ev.data (some ⟨0, 1⟩) 1), .qEnd, .pEnd] := by decide
+
+/-- … and the specification: whatever the padding, each direction's events are the specified events
+of the DATA (not payload) bytes that arrived. -/
+theorem h2_padded_stream_body_events (cq cp : Cfg) (ops : List PadOp) (h : ∀ o ∈ ops, o.wellFormed = true)
+    (chunks : List Bytes) (k : Nat) :
+    (reqProj (ops.map PadOp.plain) = chunks.map BOp.data ++ List.replicate (k+1) BOp.flush →
+      (wrunH cq cp (ops.map PadOp.wire)).map qEvs = some (specEvents cq chunks.flatten)) ∧
+    (respProj (ops.map PadOp.plain) = chunks.map BOp.data ++ List.replicate (k+1) BOp.flush →
+      (wrunH cq cp (ops.map PadOp.wire)).map pEvs = some (specEvents cp chunks.flatten)) := by
+  rw [(h2_body_events_padding_independent cq cp ops h).1]
+  have hs := h2_stream_body_events cq cp (ops.map PadOp.plain) chunks k
+  exact ⟨fun hq => by simp [hs.1 hq], fun hp => by simp [hs.2 hp]⟩
+
+example :
+    (∀ o ∈ [PadOp.reqData ⟨[0, 0, 0], some []⟩, .reqData ⟨[0, 1, 65], some [2, 0]⟩, .respEnd], o.wellFormed = true) ∧
+    reqProj ([PadOp.reqData ⟨[0, 0, 0], some []⟩, .reqData ⟨[0, 1, 65], some [2, 0]⟩, .respEnd].map PadOp.plain) =
+      [[0, 0, 0], [0, 1, 65]].map BOp.data ++ List.replicate 1 BOp.flush := by decide
+
+/-- why the stripping matters (witness): the same message fed with its Pad Length octet and padding
+as if they were body is reported as a different message sequence -/
+theorem padding_fed_as_body_differs :
+    let d : PData := ⟨[0, 0, 0, 0, 1, 65], some [0]⟩
+    (brun ⟨true, true, some⟩ init [.data d.wire.payload, .flush]).2 = [Ev.data (some ⟨1, 0⟩) 0, Ev.data none 3] ∧
+    specEvents ⟨true, true, some⟩ d.data = [Ev.data (some ⟨0, 1⟩) 1] := by decide
 
 /-! ### body ends of a stream traced at the connection level; finding F33 -/
 
